@@ -34,6 +34,10 @@ Definition quiescent (c : cfg) : Prop :=
   rlocks (g_sh c) = 0 /\ wlock (g_sh c) = None /\
   Forall (fun t => t_pc t = PIdle) (g_threads c).
 
+(* a goroutine without calls left is between two calls *)
+Definition idle_inv (c : cfg) : Prop :=
+  forall g t, nth_error (g_threads c) g = Some t -> t_calls t = [] -> t_pc t = PIdle.
+
 (* ---------- entries-level specification of a call ---------- *)
 
 (* outcome of a call run alone against the entries [es0] *)
@@ -162,4 +166,7 @@ Section Example.
   Definition ex_residue : bytes := B "text stored by goroutine B
 ---
 ".
+  (* a complete schedule of the Repaired protocol for the same two calls: B's add phase
+     has to wait for A's EUnlock *)
+  Definition ex_sched_ok : list nat := [1;1;1; 0;0;0; 0;0;0; 0;0;0; 1;1;1;1;1].
 End Example.
